@@ -293,6 +293,43 @@ def moment_tol(kind):
     return 1e-12 if kind == 'cheap' else 1e-6
 
 
+# The line rule of 'medium' and 'expensive' (cylinder.py, DESIGN §5 C18): the k Gauss-Chebyshev nodes
+# x_i = cos((2i-1) pi / 2k) with weights proportional to sqrt(1 - x_i^2), normalised to total weight 2, and
+# k = clamp(7 h/r, 7, 25) resp. clamp(11 h/r, 11, 35).  It is exact for constants and odd powers only; the
+# relative error of its even moments, evaluated HERE from the formula (never from the code), is largest for
+# the smallest admissible k and decreases with k (asserted below).  "Integrate low-degree polynomials
+# exactly" is therefore read, for z^2 and z^4 with these two kinds, as: within three times the error the
+# documented rule has at its smallest node count - much weaker than exactness, but an absolute bar that a
+# degraded line rule (weights drifting, nodes dropped) cannot pass.
+MIN_LINE_NODES = {'medium': 7, 'expensive': 11}
+MAX_LINE_NODES = {'medium': 25, 'expensive': 35}
+
+
+def line_rule_even_moment_error(k, c):
+    th = [(2 * i - 1) * mpmath.pi / (2 * k) for i in range(1, k + 1)]
+    w = [mpmath.sin(t) for t in th]
+    approx = 2 * sum(wi * mpmath.cos(t) ** c for wi, t in zip(w, th)) / sum(w)
+    exact = mpmath.mpf(2) / (c + 1)
+    return abs((approx - exact) / exact)
+
+
+def axial_monomials():
+    """(a, b, c) with even c in {2, 4} whose exact moment is non-zero."""
+    return [(0, 0, 2), (2, 0, 2), (0, 2, 2), (0, 0, 4)]
+
+
+_AXIAL_TOL = {}
+
+
+def axial_tol(kind, c):
+    """Relative (to the exact moment) tolerance of an even axial moment for 'medium' / 'expensive'."""
+    if (kind, c) not in _AXIAL_TOL:
+        errs = [line_rule_even_moment_error(k, c) for k in range(MIN_LINE_NODES[kind], MAX_LINE_NODES[kind] + 1)]
+        assert all(x > y for x, y in zip(errs, errs[1:])), 'error of the documented line rule must decrease with k'
+        _AXIAL_TOL[(kind, c)] = float(3 * errs[0]) + 1e-6
+    return _AXIAL_TOL[(kind, c)]
+
+
 # ------------------------------------------------------------------ generators
 def unit_vectors(maxn):
     """All rational unit vectors (x, y, z)/N with N <= maxn (Pythagorean quadruples, all signs)."""
